@@ -10,18 +10,20 @@ From GV Require Import Base.Prelude Lang.Lexer Lang.LexerProps Lang.Ast Lang.Par
 Local Open Scope nat_scope.
 
 (* ---------- suffixes ---------- *)
-(* [suffix r ts]: r is reached from ts by advancing token by token, never onto a lexical error *)
+(* [suffix r ts]: r is reached from ts by advancing token by token, never onto a lexical error
+   and never over an EOF token *)
 Inductive suffix (r : list sigtok) : list sigtok -> Prop :=
 | suffix_refl : suffix r r
-| suffix_step t ts : (kind_at ts =? K_LEXERR)%N = false -> suffix r ts -> suffix r (t :: ts).
+| suffix_step t ts : (fst t =? K_EOF)%N = false -> (kind_at ts =? K_LEXERR)%N = false ->
+                     suffix r ts -> suffix r (t :: ts).
 
 Lemma suffix_trans a b c : suffix a b -> suffix b c -> suffix a c.
-Proof. intros H1 H2. induction H2 as [|t ts Hk H2 IH]; [exact H1|]. apply suffix_step; assumption. Qed.
-Lemma suffix_cons t ts : (kind_at ts =? K_LEXERR)%N = false -> suffix ts (t :: ts).
-Proof. intros H. apply suffix_step; [exact H|apply suffix_refl]. Qed.
+Proof. intros H1 H2. induction H2 as [|t ts He Hk H2 IH]; [exact H1|]. apply suffix_step; assumption. Qed.
+Lemma suffix_cons t ts : (fst t =? K_EOF)%N = false -> (kind_at ts =? K_LEXERR)%N = false -> suffix ts (t :: ts).
+Proof. intros He H. apply suffix_step; [exact He|exact H|apply suffix_refl]. Qed.
 Lemma suffix_app r ts : suffix r ts -> exists pre, ts = pre ++ r.
 Proof.
-  induction 1 as [|t ts Hk H [pre ->]]; [exists []; reflexivity|]. exists (t :: pre). reflexivity.
+  induction 1 as [|t ts He Hk H [pre ->]]; [exists []; reflexivity|]. exists (t :: pre). reflexivity.
 Qed.
 Lemma suffix_length r ts : suffix r ts -> length r <= length ts.
 Proof. intros H. apply suffix_app in H as [p ->]. rewrite app_length. lia. Qed.
@@ -160,9 +162,9 @@ Proof.
   - destruct ts as [|t r]; [discriminate|]. destruct (fst t =? K_EOF)%N; [discriminate|].
     destruct (kind_at r =? K_LEXERR)%N; [discriminate|]. destruct (over fl r); discriminate.
   - destruct ts as [|t r0]; [inversion H0; subst; apply suffix_refl|].
-    destruct (fst t =? K_EOF)%N; [inversion H0; subst; apply suffix_refl|].
+    destruct (fst t =? K_EOF)%N eqn:Ee; [inversion H0; subst; apply suffix_refl|].
     destruct (kind_at r0 =? K_LEXERR)%N eqn:Ek; [discriminate|]. destruct (over fl r0); [discriminate|].
-    inversion H0; subst. apply suffix_cons. exact Ek.
+    inversion H0; subst. apply suffix_cons; [exact Ee|exact Ek].
   - destruct ts as [|t r]; [discriminate|]. destruct (fst t =? K_EOF)%N; [discriminate|].
     destruct (kind_at r =? K_LEXERR)%N; [inversion H0; cbn; lia|].
     destruct (over fl r); [inversion H0; cbn; lia|discriminate].
@@ -1134,7 +1136,7 @@ Lemma suffix_before_lexerr r ts : suffix r ts ->
   forall l e, ts = l ++ [e] -> l <> [] -> fst e = K_LEXERR ->
   Forall (fun t => (fst t =? K_EOF)%N = false) l -> (kind_at r =? K_EOF)%N = false.
 Proof.
-  induction 1 as [|t ts Hk H IH]; intros l e E Hl He Hall.
+  induction 1 as [|t ts Hte Hk H IH]; intros l e E Hl He Hall.
   - subst r. destruct l as [|t l']; [congruence|]. inversion Hall; subst. assumption.
   - destruct l as [|t' l']; [congruence|]. inversion E; subst. inversion Hall; subst.
     destruct l' as [|t2 l2].
@@ -1174,4 +1176,96 @@ Proof.
   pose proof (lazy_loop_lex (S (length s)) init_cursor s) as L. rewrite H in L. destruct L as [pre L].
   rewrite L. cbn [obind]. apply parse_entry_lexerr.
   eapply lazy_loop_no_eof. exact L.
+Qed.
+
+(* ---------- the token count ---------- *)
+(* the tokens an accepted run has advanced over are not EOF, and it stops on an EOF *)
+Lemma suffix_prefix r ts : suffix r ts ->
+  exists pre, ts = pre ++ r /\ Forall (fun t => (fst t =? K_EOF)%N = false) pre.
+Proof.
+  induction 1 as [|t ts He Hk H (pre & -> & Hp)]; [exists []; split; [reflexivity|constructor]|].
+  exists (t :: pre). split; [reflexivity|constructor; assumption].
+Qed.
+
+(* token_count = number of tokens in front of the first EOF *)
+Theorem parse_entry_count e o ts d c :
+  parse_entry e o ts = Ok (d, c) ->
+  exists pre rest, map sig ts = pre ++ rest /\ c = length pre /\
+                   Forall (fun t => (fst t =? K_EOF)%N = false) pre /\ kind_at rest = K_EOF.
+Proof.
+  unfold parse_entry. set (s := map sig ts).
+  destruct (core e (floor_of o (length s)) (exp_fragment_arguments o)
+                 (exp_directives_on_directive_definitions o) (sof_tok :: s)) as [d0 r|x|] eqn:Ec; try discriminate.
+  intros H; inversion H; subst d0 c. clear H.
+  pose proof (core_eof_state _ _ _ _ _ _ _ Ec) as Hk.
+  destruct (gd_core e (exp_fragment_arguments o) (exp_directives_on_directive_definitions o)
+                    (length (sof_tok :: s))) as [G _].
+  pose proof (g_suf _ _ G _ _ _ _ (le_n _) Ec) as Sf.
+  apply suffix_prefix in Sf as (pre & E & Hp).
+  destruct pre as [|t pre'].
+  - cbn [app] in E. subst r. discriminate Hk.
+  - cbn [app] in E. injection E as Et Es. exists pre', r. inversion Hp; subst.
+    repeat split; try assumption. rewrite Es at 1. rewrite app_length. lia.
+Qed.
+
+(* for lexer output: the count is the number of significant tokens, EOF excluded *)
+Lemma spans_significant pos s ts : spans pos s ts ->
+  exists pre e, significant ts = pre ++ [e] /\ tkind e = K_EOF /\
+                Forall (fun t => (tkind t =? K_EOF)%N = false) pre.
+Proof.
+  induction 1 as [pos s tk Hi Hk Hs He | pos g lx s' tk ts Hg Hlx Hpk Hk Hs He Hsp (pre & e & E & Ee & Hp)].
+  - exists [], tk. apply N.eqb_eq in Hk. cbn [significant filter]. rewrite Hk. cbn. repeat split; auto.
+  - cbn [significant filter]. fold (significant ts). rewrite E.
+    destruct (negb (tkind tk =? K_COMMENT)%N).
+    + exists (tk :: pre), e. repeat split; auto.
+    + exists pre, e. repeat split; auto.
+Qed.
+
+Lemma first_eof_unique (pre : list sigtok) : forall l' rest e,
+  pre ++ rest = l' ++ [e] ->
+  Forall (fun t => (fst t =? K_EOF)%N = false) pre -> kind_at rest = K_EOF ->
+  Forall (fun t => (fst t =? K_EOF)%N = false) l' -> fst e = K_EOF -> length pre = length l'.
+Proof.
+  induction pre as [|t pre IH]; intros l' rest e E Hp Hk Hq He.
+  - destruct l' as [|t' l'']; [reflexivity|]. cbn [app] in E. subst rest. inversion Hq; subst.
+    unfold kind_at in Hk. cbn in Hk. rewrite Hk in H1. discriminate.
+  - destruct l' as [|t' l''].
+    + cbn [app] in E. injection E as Et Er. subst t. inversion Hp; subst. rewrite He in H1. discriminate.
+    + cbn [app] in E. injection E as Et Er. inversion Hq; subst. inversion Hp; subst.
+      cbn [length]. f_equal. apply (IH l'' rest e); assumption.
+Qed.
+
+Theorem parse_text_count e o s ts d c : e <> ECoordinate -> lex s = Ok ts ->
+  parse_text e o s = Ok (d, c) -> S c = length (significant ts).
+Proof.
+  intros He Hl H. rewrite (parse_text_lex e o s ts He Hl) in H.
+  apply parse_entry_count in H as (pre & rest & E & -> & Hp & Hk).
+  pose proof (lex_total s) as Ht. rewrite Hl in Ht.
+  apply spans_significant in Ht as (pre' & e' & Es & Ee & Hp').
+  rewrite Es in E. rewrite Es. rewrite map_app in E. cbn [map] in E.
+  rewrite app_length. cbn [length].
+  assert (length pre = length pre'); [|lia].
+  rewrite <- (map_length sig pre').
+  apply (first_eof_unique pre (map sig pre') rest (sig e')); try assumption.
+  - symmetry. exact E.
+  - clear -Hp'. induction Hp'; constructor; assumption.
+Qed.
+
+Theorem parse_text_limit_iff e o n s d c :
+  parse_text e (with_max o (Some n)) s = Ok (d, c) <->
+  parse_text e (with_max o None) s = Ok (d, c) /\ c <= n.
+Proof.
+  unfold parse_text.
+  destruct (token_stream_total (match e with ECoordinate => true | _ => false end) s) as [ts ->].
+  cbn [obind]. apply parse_entry_limit_iff.
+Qed.
+
+(* a token limit of n accepts exactly the accepted sources with at most n tokens (EOF excluded) *)
+Theorem parse_text_limit_tokens e o n s ts d c : e <> ECoordinate -> lex s = Ok ts ->
+  (parse_text e (with_max o (Some n)) s = Ok (d, c) <->
+   parse_text e (with_max o None) s = Ok (d, c) /\ length (significant ts) <= S n).
+Proof.
+  intros He Hl. rewrite parse_text_limit_iff. split.
+  - intros [H Hc]. split; [exact H|]. rewrite <- (parse_text_count e _ s ts d c He Hl H). lia.
+  - intros [H Hc]. split; [exact H|]. pose proof (parse_text_count e _ s ts d c He Hl H). lia.
 Qed.
